@@ -44,7 +44,7 @@ ASSUMPTIONS = [
     "the gateway of parts B/C never sends; its write-spacing task is slowed down (MIN_INTER_WRITE_GAP patched) so that days of virtual time are affordable",
     "an attribute is read twice with a loop drain in between when judging 'reads as unknown' (see the recorded finding on the first read after expiry)",
 ]
-REQUIRED = {"A.messages": 300, "A.points": 3000, "A.1F09": 50, "B.packets": 500, "B.compared": 2000, "C.live_checks": 50, "C.aged_checks": 50, "D.live_checks": 300, "D.aged_checks": 30, "B.restarts": 5, "B.compared_after_restart": 100, "E.compared": 200, "E.aged_checks": 20}
+REQUIRED = {"A.messages": 300, "A.points": 3000, "A.1F09": 50, "B.packets": 500, "B.compared": 2000, "C.live_checks": 50, "C.aged_checks": 50, "D.live_checks": 300, "D.aged_checks": 30, "B.restarts": 5, "B.compared_after_restart": 100, "E.compared": 200, "E.aged_checks": 20, "F.checks": 100}
 
 CTL, GWY_ID = "01:145038", "18:006402"
 EPS = 0.01
@@ -609,6 +609,61 @@ async def part_e(loop: vloop.VirtualLoop, ctx, trial: int, tzname: str) -> None:
             pass
 
 
+async def part_f(loop: vloop.VirtualLoop, ctx, trial: int) -> None:
+    """The wall clock is not monotone: daylight-saving time ends, NTP corrects a fast clock, logs are joined.
+    'The most recently received message' is the one that arrived last, whatever its stamp says: a packet log whose
+    stamps step back (by an hour, by half a minute) part-way is replayed, and every attribute written after the
+    step must report what its last-arrived message carried.  All stamps lie within minutes: nothing is expired."""
+    import random
+
+    rng = random.Random(f"C14f/{ctx.seed}/{trial}")
+    ep = {"seed": ctx.seed, "trial": trial, "part": "F"}
+    world = World(rng, rng.choice((2, 3, 4)))
+    world.complete_arrays = True  # type: ignore[attr-defined]
+    step_back = rng.choice((3600.0, 3600.0, 30.0, 300.0))
+    t = _dt.datetime(2024, 10, 27, 2, 40, 0)
+    lines: list[tuple[str, str]] = []
+    model: dict[tuple[str, str], tuple[Any, str, bool]] = {}
+    n_pre, n_post = rng.randint(8, 25), rng.randint(6, 20)
+    for i in range(n_pre + n_post):
+        if i == n_pre:
+            t -= _dt.timedelta(seconds=step_back)
+        t += _dt.timedelta(seconds=rng.choice((0.2, 1.0, 4.0, 9.0)))
+        frame, ups = world.step()
+        lines.append((t.isoformat(timespec="microseconds"), "045 " + frame))
+        for key, val, life, form in ups:
+            model[key] = (val, form, i >= n_pre)
+    ep["step_back_s"], ep["lines"] = step_back, lines
+    gwy = harness.file_gateway(lines, config={"disable_discovery": True}, **world.schema())
+    await asyncio.wait_for(gwy.start(), timeout=60)
+    await vloop.drain(loop, 12)
+    for key, (val, form, after_step) in model.items():
+        if not after_step:
+            continue
+        try:
+            got = read_attr(gwy, world, key)
+        except Exception as err:  # noqa: BLE001
+            ctx.violate(f"C14|read-raises|{key[1]}|{type(err).__name__}|{innermost_lib_frame(err)}", "reading an attribute raised", {"attr": key, "error": repr(err)[:160], "episode": ep})
+            continue
+        ctx.count("F.checks")
+        ctx.seen(f"F|{key[1]}|{form}|{int(step_back)}|{'ok' if got == val else 'differs'}")
+        if got != val and key[1] == "setpoint" and key[0].startswith("zone "):
+            # a zone's setpoint is fed by two codes (2309, 2349) and the library takes the one with the later *stamp*
+            ctx.violate(
+                "C14|clock-step|two-code-attribute-ordered-by-stamp|setpoint",
+                "after the wall clock stepped back, a zone's setpoint (fed by 2309 and by 2349) reports the message with the later stamp, not the one received last",
+                {"attr": list(key), "expected": val, "reported": got, "episode": ep},
+            )
+        elif got != val:
+            ctx.violate(
+                f"C14|clock-step|last-arrived-not-reported|{key[1]}|{form}",
+                "after the wall clock stepped back, an attribute does not report the value of its most recently received message",
+                {"attr": list(key), "expected": val, "reported": got, "episode": ep},
+            )
+    ctx.ev()
+    await gwy.stop()
+
+
 def run_part_e(ctx) -> None:
     import os
     import time as _time
@@ -641,6 +696,16 @@ def run_part_e(ctx) -> None:
 def run(ctx) -> None:
     part_a(ctx)
     run_part_e(ctx)
+    for k in range(6 if ctx.quick else 120):
+        trial = ctx.shard + k * ctx.nshards
+
+        async def gof(loop, trial=trial):
+            await part_f(loop, ctx, trial)
+
+        try:
+            vloop.run(gof)
+        except vloop.Starved as err:
+            ctx.inconclusive_because(f"scenario starved the virtual clock: {err}")
     for k in range(15 if ctx.quick else 300):
         trial = ctx.shard + k * ctx.nshards
         harness.reset_transport_globals()
